@@ -426,6 +426,17 @@ fn mutate(dir: &str, target: &str, action: &str, off: u64, len: u64, arg: u64) -
                 f.write_at(&b, o)?;
                 Ok(format!("flip {} byte {} bit {}", path, o, arg % 8))
             }
+            "setval" => {
+                // overwrite a little-endian field of `len` bytes with `arg`
+                let f = std::fs::OpenOptions::new().read(true).write(true).open(&path)?;
+                let flen = f.metadata()?.len();
+                let w = len.clamp(1, 8);
+                if off + w > flen {
+                    return Ok("out of range".into());
+                }
+                f.write_at(&arg.to_le_bytes()[..w as usize], off)?;
+                Ok(format!("setval {} [{}..{}) = {:#x}", path, off, off + w, arg))
+            }
             "zero" => {
                 let f = std::fs::OpenOptions::new().read(true).write(true).open(&path)?;
                 let flen = f.metadata()?.len();
